@@ -61,6 +61,7 @@ fn main() {
         "C01" | "C09" | "C10" | "C13" => checks::dhcp_hist::run(prop, &tier, replay),
         "C12" => checks::c12::run(&tier, replay),
         "C14" => checks::c14::run(&tier, replay),
+        "C17" => checks::c17::run(&tier, replay),
         "C05" => checks::c05::run(&tier, replay),
         "C04" => checks::c04::run_function_only(&tier, replay),
         _ => {
